@@ -50,6 +50,15 @@ def make_registry(kind):
         r.add("ang", 0.25, udims.angle)
     elif kind == "cgs-system":
         r.add("code_mass", 5.0, udims.mass)
+    elif kind == "dumped-then-modified":
+        # the registry has been serialised (JSON, pickle) once BEFORE its last edit; nothing is added or removed afterwards
+        r.add("code_length", 3.0, udims.length)
+        r.add("code_time", 7.0, udims.time)
+        r.to_json()
+        pickle.dumps(Unit("code_length", registry=r))
+        copy.deepcopy(r)
+        r.modify("code_length", 6.0)
+        r.modify("code_time", unyt_quantity(14.0, "s"))
     return r
 
 
@@ -59,6 +68,7 @@ CUSTOM_UNITS = {
     "prefixable": ["foo", "kfoo", "kfoo/s"],
     "offset": ["degX", "mdegX", "ang", "degC"],
     "cgs-system": ["m", "J", "code_mass"],
+    "dumped-then-modified": ["code_length", "code_length/code_time"],
 }
 ALT_UNIT = {  # a second unit of the same dimension, to convert to after the hop
     "degree": "arcmin", "rad": "degree", "arcsec": "degree", "lat": "degree", "K": "R", "degC": "K", "degF": "degC", "delta_degC": "K",
@@ -422,6 +432,51 @@ def part_txt_columns(ctx, shard):
             os.remove(fn)
 
 
+def part_txt_single(ctx, shard):
+    """files holding one value, one row or one column: what was written comes back (NumPy returns 0-d / 1-d arrays there)"""
+    import os
+    import tempfile
+
+    world.reset_world()
+    for unit in shard:
+        written = {
+            "one-value-array": [unyt_array(np.array([2.5]), unit)],
+            "one-row-two-columns": [unyt_array(np.array([2.5]), unit), unyt_array(np.array([4.0]), "s")],
+            "two-rows-one-column": [unyt_array(np.array([2.5, 3.5]), unit)],
+            "quantity": [unyt_quantity(2.5, unit)],
+        }
+        for wname, arrays in written.items():
+            for kw in ({}, {"usecols": (0,)}, {"delimiter": ","}):
+                ctx.count("evaluations")
+                fd, fn = tempfile.mkstemp(prefix="c11one_", suffix=".txt", dir="/tmp")
+                os.close(fd)
+                case = {"part": "txt-single", "unit": unit, "written": wname, "kw": {k: list(v) if isinstance(v, tuple) else v for k, v in kw.items()}}
+                base = f"C11|txt-single|written={wname}|kw={'+'.join(sorted(kw)) or 'none'}"
+                try:
+                    try:
+                        unyt.savetxt(fn, arrays, **({"delimiter": kw["delimiter"]} if "delimiter" in kw else {}))
+                    except Exception:  # noqa: BLE001
+                        ctx.count("savetxt_refused")
+                        continue
+                    try:
+                        r = unyt.loadtxt(fn, **kw)
+                    except Exception as e:  # noqa: BLE001
+                        ctx.violation(base + f"|mode=loadtxt-fails:{type(e).__name__}", case, "arrays", str(e)[:100])
+                        continue
+                finally:
+                    os.remove(fn)
+                got = [r] if isinstance(r, unyt_array) else list(r)
+                want = arrays[:1] if "usecols" in kw else arrays
+                ctx.decided(("txt-single", unit, wname, tuple(kw)))
+                if len(got) != len(want):
+                    ctx.violation(base + "|mode=wrong-number-of-columns", case, len(want), len(got))
+                    continue
+                for g, w in zip(got, want):
+                    if not isinstance(g, unyt_array) or g.units != w.units or not np.allclose(np.asarray(g.d, dtype=float).reshape(-1), np.asarray(w.d, dtype=float).reshape(-1), rtol=1e-15):
+                        ctx.violation(base + "|mode=value-or-unit-differs", case, str(w), str(g))
+                        break
+
+
 def shard_fn(ctx, shard):
     for kind, regkind, unit, hops in shard:
         one_case(ctx, kind, regkind, unit, hops)
@@ -438,6 +493,7 @@ def run(ctx):
     shards = [cases[i::128] for i in range(128)]
     harness.pmap(ctx, shard_fn, shards)
     harness.pmap(ctx, part_txt_columns, [["\t"], [","], [" "]])
+    harness.pmap(ctx, part_txt_single, [["km"], ["degC"], ["g*cm/s**2"], ["dimensionless"]])
     return {
         "coverage": {
             "rule": "one evaluation = object x hop sequence x order, built and run from a reset world; a decided case = one follow-up operation "
@@ -463,6 +519,9 @@ def replay(case):
     ctx = harness.Ctx(PROPERTY, "quick", 0)
     if case.get("part") == "txt-columns":
         part_txt_columns(ctx, [case["delimiter"]])
+        return list(ctx.violations.items())
+    if case.get("part") == "txt-single":
+        part_txt_single(ctx, [case["unit"]])
         return list(ctx.violations.items())
     one_case(ctx, case["kind"], case["registry"], case["unit"], tuple(case["hops"]))
     return list(ctx.violations.items())
